@@ -9,6 +9,7 @@ pub mod stream;
 pub mod io;
 pub mod gm;
 pub mod hotplug;
+pub mod build;
 #[cfg(feature = "xen")]
 pub mod xen;
 
@@ -61,6 +62,7 @@ pub fn all_scenarios() -> Vec<&'static dyn Scenario> {
     v.push(&mem::DIRTY_SLICE);
     v.push(&hotplug::SEQ);
     v.push(&hotplug::CONC);
+    v.push(&build::BUILD);
     #[cfg(feature = "xen")]
     v.push(&xen::XEN);
     v
@@ -182,6 +184,15 @@ pub fn checks() -> Vec<Check> {
         assumptions: COMMON_ASSUMPTIONS.to_vec(),
         real: vec!["vm_memory::atomic (GuestMemoryAtomic, load guard, exclusive guard), GuestMemoryMmap (compiled from /repo working tree)", "arc-swap and std::sync::Mutex (real code, executed atomically between yield points; blocking replaced by a yielding try_lock loop)"],
         stub: vec!["thread scheduling and blocking on the update mutex (coroutines)"],
+        needs_seam_events: true,
+    });
+    v.push(Check {
+        prop: "C15",
+        parts: vec![Part { name: "S-build", xen: false, quick: 100_000, thorough: 4_000_000 }, Part { name: "S-build", xen: true, quick: 60_000, thorough: 3_000_000 }],
+        rule: "runs are 1-6 construction requests each: unix build - MmapRegion::build / from_file / new with sizes incl. 0, file lengths at end-1 / end / end+1, offsets around the overflow boundary, unaligned offsets, unseekable files, flag words from a safe palette with and without MAP_FIXED, injected mmap failures, build_raw with aligned and misaligned pointers, GuestRegionMmap::new with guest bases near 2^64; xen build - MmapRegion::from_range over every value of the low five Xen flag bits (plus random high bits), with/without file, zero/non-zero offset, with the emulated device and injected ioctl / mmap failures; distinct = distinct event-log hash; non-trivial = at least one request accepted and one rejected",
+        assumptions: COMMON_ASSUMPTIONS.to_vec(),
+        real: vec!["vm_memory::mmap (check_file_offset, MmapRegionBuilder::build/build_raw, GuestRegionMmap::new; xen: MmapRegion::from_range, MmapXen*, MmapXenFlags) compiled from /repo working tree", "kernel mmap / memfd / pipe / lseek / pread / pwrite when the injector passes through (where the kernel decides a flag combination, its real verdict is the reference)"],
+        stub: vec!["injected mmap failures", "xen build: emulated gntdev/privcmd device, injected ioctl failures"],
         needs_seam_events: true,
     });
     v.push(Check {
